@@ -71,9 +71,9 @@ def gen_cases(seed, tier):
 
 
 # ------------------------------------------------------------------ recording
-def make_recording(rng, d, ns, n, name="rec", faults=False):
+def make_recording(rng, d, ns, n, name="rec", faults=False, nsync=1):
     kind = str(rng.choice(["3B2", "NP2.1", "NP2.4", "3B2", "NP2.4"]))      # every generation, also with fewer saved channels (sampling delays, gains and sync gain differ)
-    rec = G.make(rng, kind=kind, sites=G.draw_sites(rng, kind, n, "dense"), ns=ns, raw=np.zeros((1, 1), np.int16))
+    rec = G.make(rng, kind=kind, sites=G.draw_sites(rng, kind, n, "dense"), ns=ns, raw=np.zeros((1, 1), np.int16), nsync=nsync)
     s2v = rec.s2v[:n]
     t = np.arange(ns)[:, None]
     x = rng.standard_normal((ns, n)) * 15e-6 + 40e-6 * np.sin(2 * np.pi * t * rng.uniform(300, 3000, (1, n)) / 30000.0) + \
@@ -92,7 +92,7 @@ def make_recording(rng, d, ns, n, name="rec", faults=False):
         ln = int(rng.integers(5, 80))
         raw[a:a + ln, :] = (maxint - 1) * rng.choice([-1, 1])
         sat.append((a, a + ln))
-    sync = G.sync_words(rng, (ns, 1))
+    sync = G.sync_words(rng, (ns, nsync))
     rec.raw = np.ascontiguousarray(np.c_[raw, sync])
     rec.sat = sat
     b = G.write(rec, Path(d) / name)
@@ -261,7 +261,9 @@ def run_case(case):
     try:
         if cls == "sched":
             nw = case["workers"]
-            b, rec = make_recording(rng, d, ns, n, faults=case["opt"] == 6)
+            b, rec = make_recording(rng, d, ns, n, faults=case["opt"] == 6, nsync=0 if case["seed"] % 5 == 3 else 1)      # some recordings are saved without the sync channel
+            if rec.nsync == 0:
+                res.count("zero_sync_recordings")
             container = "bin"
             if case["seed"] % 3 == 1:
                 # the usual production input: the compressed recording (chunk seams fall anywhere relative to batch seams), duration written with few decimals
@@ -281,7 +283,7 @@ def run_case(case):
             ns2add = opts.get("ns2add", 0)
             total_rows = ns + ns2add
             rowbytes = nc_out * 2
-            label = f"{rec.kind} {container} ns={ns} nbatch={nbatch} (K={K} batches) workers={nw} n={n} opts={ {k: (v if np.isscalar(v) or isinstance(v, dict) else 'matrix') for k, v in opts.items()} }"
+            label = f"{rec.kind} nsync={rec.nsync} {container} ns={ns} nbatch={nbatch} (K={K} batches) workers={nw} n={n} opts={ {k: (v if np.isscalar(v) or isinstance(v, dict) else 'matrix') for k, v in opts.items()} }"
             res.count("configs")
             res.count("saturated_samples", sum(e - a for a, e in rec.sat))
             chunk = int(ns / nw)
@@ -301,7 +303,7 @@ def run_case(case):
             res.check(len(base) == total_rows * rowbytes, "output:size", f"{label}: 1 worker: output has {len(base)} bytes, expected {total_rows * rowbytes}")
             img1 = np.frombuffer(base, np.int16).reshape(-1, nc_out) if len(base) % rowbytes == 0 else None
             # ---------------- sync column bit for bit
-            if img1 is not None and nc_out == rec.nc and img1.shape[0] == total_rows:
+            if img1 is not None and nc_out == rec.nc and img1.shape[0] == total_rows and rec.nsync:
                 same = np.array_equal(img1[:ns, -1], rec.raw[:, -1])
                 if not same:
                     bad = np.flatnonzero(img1[:ns, -1] != rec.raw[:, -1])
